@@ -34,7 +34,125 @@ func sectionHullRace() {
 			runHullRace(sec, nb, held)
 		}
 	}
+	for _, nb := range []int{1, 10} {
+		runDropRace(sec, nb)
+	}
 	res.Done(sec)
+}
+
+// runDropRace: regression case for the first shape of the stale-entry repair (a2ca477, corrected by 7ea0278): syncChunks dropped
+// LIVE entries inside F46's window; when the writer's onWrite ran between the reader's two critical sections it found no entry for
+// the chunk and created one from the last batch's hull only — every older event of the chunk was hidden until the background
+// rebuild had merged the scanned hull (seen as unattributed losses in the free-running race section). Schedule: A indexed; writer W of B parked before onWriteCIndex, B readable; reader R (a new
+// RANGE query over A's timestamps) runs syncChunks' first critical section — the entry, older than its chunk, is dropped —
+// and is parked before the second one; W continues: onWrite finds no entry for the chunk, creates one from B's hull only
+// (firstRec > 0 → corrupted, background rebuild requested — parked); R continues and stores/reads W's entry. Until the
+// rebuild has merged the scanned hull, the chunk's hull is B's: ranges over A return nothing.
+func runDropRace(sec *vh.Section, nb int) {
+	dir := lrsrv.NewDir()
+	defer os.RemoveAll(dir)
+	srv, err := lrsrv.Start(dir, lrsrv.Opts{MaxChunkSize: 250000, NoRPC: true})
+	if err != nil {
+		res.Note("hullrace/drop: %v", err)
+		return
+	}
+	defer srv.Stop()
+	defer verifhook.Reset()
+	r := &sysRun{h: history{ChunkSize: 250000, Regime: "strict"}, srv: srv, ctx: context.Background(), sec: sec, section: "hullrace"}
+	rng := vh.NewRng(int64(nb))
+	r.ask("rw.reset 250000", func(string) {})
+	if !r.doWrite(op{Kind: "write", Segs: []seg{{T: 100, N: 10, D: 1}}}, rng) {
+		return
+	}
+	arrivedW, gateW := make(chan struct{}, 1), make(chan struct{})
+	verifhook.Set("partition.write.beforeCIndex", func() { arrivedW <- struct{}{}; <-gateW })
+	bts := expand([]seg{{T: 200, N: nb, D: 1}})
+	doneW := make(chan struct{})
+	go func() {
+		defer close(doneW)
+		evs := make([]model.LogEvent, len(bts))
+		for i, t := range bts {
+			evs[i] = model.LogEvent{Timestamp: t, Msg: []byte(fmt.Sprintf("%06d", 10+i))}
+		}
+		srv.Parts.Write(context.Background(), tags, &wit{evs: evs}, true)
+	}()
+	select {
+	case <-arrivedW:
+	case <-time.After(5 * time.Second):
+		res.Note("hullrace/drop: the writer did not reach the hook")
+		close(gateW)
+		<-doneW
+		return
+	}
+	verifhook.Set("partition.write.beforeCIndex", nil)
+	r.allTs = append(r.allTs, bts...)
+	r.batches = append(r.batches, bts)
+	r.full = nil
+	if !r.waitFlushed() {
+		res.Note("hullrace/drop: batch B did not become readable")
+		close(gateW)
+		<-doneW
+		return
+	}
+	r.ask("rw.writenoindex "+modelSpec(bts), func(string) {})
+	// the reader: parked between the two critical sections of its syncChunks
+	arrivedR, gateR := make(chan struct{}, 1), make(chan struct{})
+	var once bool
+	verifhook.Set("tmindex.syncChunks.betweenLocks", func() {
+		if !once {
+			once = true
+			arrivedR <- struct{}{}
+			<-gateR
+		}
+	})
+	gateReb := make(chan struct{})
+	verifhook.Set("partition.tmirebuilder.beforeServe", func() { <-gateReb })
+	lo, hi := i64p(100), i64p(105)
+	q := rangeQuery(lo, hi)
+	var pre preResult
+	doneR := make(chan struct{})
+	go func() {
+		defer close(doneR)
+		pre.seqs, pre.tss, pre.err = r.runQuery(q, 10000, false)
+	}()
+	select {
+	case <-arrivedR:
+	case <-time.After(5 * time.Second):
+		res.Note("hullrace/drop: the reader did not reach the hook between syncChunks' critical sections")
+		close(gateR)
+		close(gateW)
+		close(gateReb)
+		<-doneW
+		<-doneR
+		return
+	}
+	r.ask("rw.dropstale", func(string) {})
+	close(gateW) // the writer's onWrite runs now: no entry for the chunk
+	<-doneW
+	r.ask("rw.notify", func(string) {})
+	close(gateR)
+	<-doneR
+	verifhook.Set("tmindex.syncChunks.betweenLocks", nil)
+	// no finding belongs to this schedule any more: a loss here means the regression of a2ca477 (repaired by 7ea0278) is back
+	r.pre = &pre
+	r.doQuery(op{Kind: "query", Lo: lo, Hi: hi}, false) // the parked reader's own result
+	r.doQuery(op{Kind: "query", Lo: lo, Hi: hi}, false) // a new query while the rebuild has not run
+	r.doQuery(op{Kind: "query", Hi: i64p(150)}, false)
+	close(gateReb)
+	verifhook.Set("partition.tmirebuilder.beforeServe", nil)
+	time.Sleep(5 * time.Millisecond)
+	r.waitIdle()
+	r.ask("rw.rebuild all", func(string) {})
+	r.schedFinding = ""
+	r.doQuery(op{Kind: "query", Lo: lo, Hi: hi}, false) // after the background rebuild: everything is back
+	r.doQuery(op{Kind: "query", Hi: i64p(150)}, false)
+	ans, err := vh.Batch(args.Driver, r.lines)
+	if err != nil {
+		res.Note("hullrace/drop: driver: %v", err)
+	}
+	for i := range ans {
+		r.checks[i](ans[i])
+	}
 }
 
 func runHullRace(sec *vh.Section, nb int, held bool) {
